@@ -222,6 +222,10 @@ impl Model {
         }
     }
 
+    /// Is run `g` of bind `b` still the current one (and the bind valid)?
+    pub fn bind_run_is_current(&self, b: Hid, g: u32) -> bool {
+        self.nodes.get(b).map_or(false, |n| !n.invalid && n.gen == Some(g))
+    }
     pub fn is_invalid(&self, h: Hid) -> bool {
         self.nodes.get(h).map_or(false, |n| n.invalid)
     }
